@@ -38,10 +38,10 @@ Theorem C01_fix_rules_sound : forall fuel rules ns used ns',
   forall st out, run ns st = Ok out -> run ns' st = Ok out.
 Proof. exact fix_rules_sound. Qed.
 
-(** every one of the 45 entries of the table is either proved or named in listed_unproved *)
+(** every one of the 43 entries of the table is either proved or named in listed_unproved *)
 Theorem C01_all_rules_accounted :
   forallb (fun o => xorb (mem_name (opt_name o) proved) (mem_name (opt_name o) listed_unproved)) unsorted_opts = true
-  /\ length unsorted_opts = 45%nat /\ length optimizations = 45%nat.
+  /\ length unsorted_opts = 43%nat /\ length optimizations = 43%nat.
 Proof. exact all_rules_accounted. Qed.
 
 (** Node::push: where the model computes the inlined literal (length, reverse, transpose, sort of an
